@@ -14,6 +14,8 @@
                                        "even if it's nil" :711; all events of the message are
                                        forwarded before the next Recv :779-790)
     sendError               :601   → terminate
+    event loop, error branch :701  → Rules.reports (is the error recvMessage returned handed to sendError
+                                       before the goroutine returns?) — `withRules`, `genRules`
   and /repo/pkg/state/protobuf/server/server.go
     Watch                   :314   → reconnect (options → inner Watch/WatchKind/WatchKindAggregated,
                                        invalid bookmark → FailedPrecondition :393, any other
@@ -35,6 +37,16 @@ inductive RCause where
   | exhausted         -- client.go:652 (backoff.Stop)
   | invalidBookmark   -- client.go:684 (FailedPrecondition)
 deriving DecidableEq, Repr, Inhabited
+
+/-- what `cli.Recv` returned instead of a message -/
+inductive RecvErr where
+  | status   -- a gRPC status error (Unavailable, …): the transport broke
+  | eof      -- io.EOF: the server side ended the stream CLEANLY (its handler returned nil / status OK:
+             -- a draining server, a proxy in front of it)
+deriving DecidableEq, Repr, Inhabited
+
+def RecvErr.str : RecvErr → String
+  | .status => "status" | .eof => "eof"
 
 def RCause.str : RCause → String
   | .retryDisabled => "retryDisabled" | .noBookmark => "noBookmark"
@@ -58,6 +70,7 @@ structure RClient where
   boStart : Nat := 0           -- backoff.startTime (NewExponentialBackOff / Reset)
   cookieOk : Bool := true      -- false once the serving process was replaced: its bookmarks are foreign
   lastBm : Option Int := none  -- lastBookmark (decoded position; nil = none)
+  lastErr : RecvErr := .status -- recvMessage's `err`: the error to be retried (wrapped with %w when the back-off gives up, client.go:653)
   orig : StartOpts := {}       -- the options of the original request (only read when a regenerated fact is false)
   phase : RPhase
   delivered : List Event := [] -- ghost: everything handed to the subscriber, flattened
@@ -98,7 +111,7 @@ def RClient.newSrv (c : RClient) (pos : Nat) (init : List Delivery) : Watcher :=
 /-- what one iteration of the retry loop meets -/
 inductive Attempt where
   | dialFail                       -- adapter.client.Watch returns an error (client.go:677)
-  | firstRecvFail                  -- the first (empty) message fails, not FailedPrecondition (client.go:687)
+  | firstRecvFail (e : RecvErr)    -- the first (empty) message fails, not FailedPrecondition (client.go:687)
   | connect (cur : Option Res)     -- the request reaches the server's Watch handler
 deriving Repr
 
@@ -108,7 +121,8 @@ inductive RStep where
   | srvPush                        --   … one hand-over towards the transport
   | srvSettle (fuel : Nat)         --   … runs until it blocks
   | recv (now : Nat)               -- cli.Recv returns the next message
-  | fail (restart : Bool)          -- cli.Recv returns a transport error (restart: the server process is gone)
+  | fail (restart : Bool) (e : RecvErr)   -- cli.Recv returns an error: the transport broke (`.status`) or the server
+                                   -- ended the stream cleanly (`.eof`); restart: the server process is gone
   | attempt (now next : Nat) (a : Attempt)   -- one iteration of the retry loop; `next` = NextBackOff's value
 deriving Repr
 
@@ -139,26 +153,26 @@ def rstepCore (s : Ring × RClient) : RStep → Ring × RClient
                          delivered := s.2.delivered ++ d, boStart := now })
       | (none, _) => s
     | _ => s
-  | .fail restart =>
+  | .fail restart e =>
     let c := if restart then { s.2 with cookieOk := false } else s.2
     match c.phase with
     | .streaming _ =>
       if !c.retry then (s.1, c.terminate .retryDisabled)
       else if c.lastBm.isNone then (s.1, c.terminate .noBookmark)
-      else (s.1, { c with phase := .retrying })
-    | .waitFirst _ => (s.1, { c with phase := .retrying })   -- client.go:691 err ≠ nil: next loop iteration
+      else (s.1, { c with phase := .retrying, lastErr := e })
+    | .waitFirst _ => (s.1, { c with phase := .retrying, lastErr := e })   -- client.go:691 err ≠ nil: next loop iteration
     | _ => (s.1, c)
   | .attempt now next a =>
     match s.2.phase with
     | .retrying =>
       if now - s.2.boStart + next > s.2.maxElapsed then (s.1, s.2.terminate .exhausted)
       else match a with
-        | .dialFail => s
-        | .firstRecvFail => s
+        | .dialFail => (s.1, { s.2 with lastErr := .status })
+        | .firstRecvFail e => (s.1, { s.2 with lastErr := e })
         | .connect cur =>
           match s.2.reconnect s.1 cur with
           | .error .invalidBookmark => (s.1, s.2.terminate .invalidBookmark)
-          | .error .other => s
+          | .error .other => (s.1, { s.2 with lastErr := .status })
           | .ok (pos, init) => (s.1, { s.2 with phase := .waitFirst (s.2.newSrv pos init) })
     | _ => s
 
@@ -166,7 +180,7 @@ def rrunCore (s : Ring × RClient) (steps : List RStep) : Ring × RClient := ste
 
 /-! ### the same machine, reading the facts regenerated from client.go / server.go
 
-`rstep` is what the driver runs. Where a fact is `false` it does what the code would do
+`rstep` (= `withRules genRules rstepFacts`, below) is what the driver runs. Where a fact is `false` it does what the code would do
 WITHOUT the corresponding statement (the original option is kept, the check is skipped,
 the error is retried, …); nothing is proved about that machine. -/
 
@@ -191,7 +205,7 @@ def RClient.gReconnect (c : RClient) (r : Ring) (cur : Option Res) : Except Star
   | .agg => startKind r [] c.ns c.typ true c.gReqOpts
 
 open Gen.RWatch in
-def rstep (s : Ring × RClient) : RStep → Ring × RClient
+def rstepFacts (s : Ring × RClient) : RStep → Ring × RClient
   | .write e => (s.1.publish e, s.2)
   | .srvFetch => (s.1, s.2.withSrv fun w => if w.pending = [] then w.fetch s.1 else w)
   | .srvPush => (s.1, s.2.withSrv fun w =>
@@ -215,14 +229,14 @@ def rstep (s : Ring × RClient) : RStep → Ring × RClient
                          boStart := if resetsBackoffOnMessage then now else s.2.boStart })
       | (none, _) => s
     | _ => s
-  | .fail restart =>
+  | .fail restart e =>
     let c := if restart then { s.2 with cookieOk := false } else s.2
     match c.phase with
     | .streaming _ =>
       if checksDisable && !c.retry then (s.1, c.terminate .retryDisabled)
       else if checksNilBookmark && c.lastBm.isNone then (s.1, c.terminate .noBookmark)
-      else (s.1, { c with phase := .retrying })
-    | .waitFirst _ => (s.1, { c with phase := .retrying })
+      else (s.1, { c with phase := .retrying, lastErr := e })
+    | .waitFirst _ => (s.1, { c with phase := .retrying, lastErr := e })
     | _ => (s.1, c)
   | .attempt now next a =>
     match s.2.phase with
@@ -231,16 +245,69 @@ def rstep (s : Ring × RClient) : RStep → Ring × RClient
       else if stopsOnBackoffStop && backoffStopShape && backoffDefaultCtor &&
           decide (now - s.2.boStart + next > s.2.maxElapsed) then (s.1, s.2.terminate .exhausted)
       else match a with
-        | .dialFail => s
-        | .firstRecvFail => s
+        | .dialFail => (s.1, { s.2 with lastErr := .status })
+        | .firstRecvFail e => (s.1, { s.2 with lastErr := e })
         | .connect cur =>
           match s.2.gReconnect s.1 cur with
           | .error .invalidBookmark =>
             if abortsOnFailedPrecondition && serverInvalidBookmarkIsFailedPrecondition
-            then (s.1, s.2.terminate .invalidBookmark) else s
-          | .error .other => s
+            then (s.1, s.2.terminate .invalidBookmark) else (s.1, { s.2 with lastErr := .status })
+          | .error .other => (s.1, { s.2 with lastErr := .status })
           | .ok (pos, init) => (s.1, { s.2 with phase := .waitFirst (s.2.newSrv pos init) })
     | _ => s
+
+/-! ### the event loop's error branch (client.go:700-706) as a rule
+
+`recvMessage` returns an error when the watch cannot go on (retries disabled, no bookmark seen,
+back-off exhausted, bookmark refused); the event loop must hand it to `sendError` — the
+subscriber's ONLY sign that the watch is over — and return. Whether it does, per kind of error,
+is the parameter `Rules.reports`; `genRules` reads it off the current source text (fail closed).
+A step that ends the watch without reporting leaves the client `done` WITHOUT the terminal
+`Errored` in what was handed to the subscriber: the watch has gone silent. -/
+
+structure Rules where
+  /-- is an error recvMessage returned, of this kind (after unwrapping: the retry loop wraps with %w,
+      client.go:653), handed to `sendError` before the goroutine returns? -/
+  reports : RecvErr → Bool
+
+/-- what the property demands (and client.go:702 does): every error is reported -/
+def goodRules : Rules := { reports := fun _ => true }
+
+/-- the rule of the CURRENT source text; unrecognised shape ⇒ nothing is reported -/
+def genRules : Rules :=
+  { reports := fun
+      | .status => Gen.RWatch.eventLoopReportsStatus && Gen.RWatch.sendErrorSendsErrored
+      | .eof => Gen.RWatch.eventLoopReportsEOF && Gen.RWatch.sendErrorSendsErrored }
+
+/-- the error `recvMessage` returns when step `st` ends the watch with `cause` from client state `c`:
+    the Recv error itself (client.go:634/:639), the last retried error wrapped (`%w`, :653), or
+    `eInvalidWatchBookmark` around a FailedPrecondition status (:685) -/
+def endErr (c : RClient) (st : RStep) : RCause → RecvErr
+  | .exhausted => c.lastErr
+  | .invalidBookmark => .status
+  | _ => match st with
+    | .fail _ e => e
+    | _ => .status
+
+def isDonePhase : RPhase → Bool
+  | .done _ => true
+  | _ => false
+
+/-- a step function with the event loop's error branch governed by `r`: when the step ends the
+    watch and the rule does not report that error, nothing is handed to the subscriber -/
+def withRules (r : Rules) (f : Ring × RClient → RStep → Ring × RClient) (s : Ring × RClient) (st : RStep) :
+    Ring × RClient :=
+  let t := f s st
+  match t.2.phase with
+  | .done cause =>
+    if !isDonePhase s.2.phase && !r.reports (endErr s.2 st cause) then (t.1, { t.2 with delivered := s.2.delivered })
+    else t
+  | _ => t
+
+/-- the machine of the current source text: every regenerated fact read -/
+def rstepW (r : Rules) : Ring × RClient → RStep → Ring × RClient := withRules r rstepFacts
+
+def rstep : Ring × RClient → RStep → Ring × RClient := rstepW genRules
 
 def rrun (s : Ring × RClient) (steps : List RStep) : Ring × RClient := steps.foldl rstep s
 
